@@ -6,10 +6,14 @@ E = "LLBuild.Engine."
 
 class Check(EngineCheck):
     prop = "C02"
-    module = "LLBuild.Props.C02"
+    # Props/C01Gen.lean imports Props/C02.lean; it holds the engine half of C09 ("a command re-runs exactly when
+    # its definition changed": reason 1 of C02_reason_true over histories in which the client program changes)
+    module = "LLBuild.Props.C01Gen"
     theorems = [E + "C02_once", E + "C02_create_needs_reason", E + "C02_reason_true",
                 E + "C02_interrupted_is_never_built", E + "C02_invalid_is_rule_verdict", E + "C02_computedAt_changes_only_on_change",
-                E + "C02_null_build_runs_nothing", E + "C02_null_build_after_build", E + "engine_fingerprint_matches_model"]
+                E + "C02_null_build_runs_nothing", E + "C02_null_build_after_build", E + "engine_fingerprint_matches_model",
+                E + "C09_changed_definition_reruns", E + "C09_changed_definition_signature_differs",
+                E + "C09_unchanged_definition_needs_other_reason"]
     mix = [(0.6, {}), (0.2, {"cancel": True}), (0.2, {"threads": True})]
     budget = (300, 3000)
     assumptions = EngineCheck.assumptions + [
